@@ -163,6 +163,35 @@ def unit_is_unlabeled_number(ndim=1):
     return se_unit(f"labels.is_unlabeled.number_sentinel_{ndim}d", FL, "is_unlabeled", None, setup, post, lib_factory=lambda: label_lib(False))
 
 
+def unit_is_unlabeled_none(ndim=1):
+    """None sentinel, object ndarray of opaque labels: the mask has the same shape and is True exactly at the entries that are None
+    (spec predicate ISNONE; assumed: a label compares equal to None iff it is None, astype(object) keeps an object array)"""
+    from pyvc.lib import ISNONE
+
+    def setup(E, st):
+        n, k = z3.Int("n"), z3.Int("k")
+        st.assume(n >= 1, k >= 1)
+        shape = (n,) if ndim == 1 else (n, k)
+        y = ArrData(shape, fresh_sel("y", "o", ndim) if ndim == 2 else fresh_sel("y", "o"), "o")
+        return {"args": [st.alloc(y), None], "y": y, "shape": shape}
+
+    def post(E, ctx, outs):
+        rets = returns(outs)
+        if not rets:
+            E.oblige("reaches.return", [], z3.BoolVal(False))
+        js = [z3.Int("j"), z3.Int("l")][:ndim]
+        for o in rets:
+            r = arr_of(o.value, o.state)
+            if r is None or r.kind != "b" or r.ndim != ndim:
+                E.oblige("returns.boolean_mask", o.state, False)
+                continue
+            E.oblige("ensures.same_shape", o.state, z3.And(*[to_int(a) == to_int(b) for a, b in zip(r.shape, ctx["shape"])]))
+            rng = z3.And(*[z3.And(0 <= j, j < to_int(d)) for j, d in zip(js, ctx["shape"])])
+            E.oblige("ensures.marks_exactly_the_None_entries", o.state,
+                     z3.ForAll(js, z3.Implies(rng, z3bool(r.sel(*js)) == ISNONE(ctx["y"].sel(*js).sym))))
+    return se_unit(f"labels.is_unlabeled.none_sentinel_{ndim}d", FL, "is_unlabeled", None, setup, post, lib_factory=lambda: label_lib(False))
+
+
 def unit_is_unlabeled_empty(ndim):
     """empty inputs (the early return): an empty boolean mask of the SAME shape, (0,) or (0, k)"""
     def setup(E, st):
@@ -191,4 +220,5 @@ UNITS = {"is_unlabeled.empty_1d": unit_is_unlabeled_empty(1), "is_unlabeled.empt
          "is_labeled.1d": unit_is_labeled(1), "is_labeled.2d": unit_is_labeled(2),
          "unlabeled_indices.1d": unit_indices("unlabeled_indices"), "labeled_indices.1d": unit_indices("labeled_indices"),
          "is_unlabeled.nan": unit_is_unlabeled_nan(), "is_unlabeled.nan_2d": unit_is_unlabeled_nan(2),
-         "is_unlabeled.number_1d": unit_is_unlabeled_number(1), "is_unlabeled.number_2d": unit_is_unlabeled_number(2)}
+         "is_unlabeled.number_1d": unit_is_unlabeled_number(1), "is_unlabeled.number_2d": unit_is_unlabeled_number(2),
+         "is_unlabeled.none_1d": unit_is_unlabeled_none(1), "is_unlabeled.none_2d": unit_is_unlabeled_none(2)}
